@@ -1439,6 +1439,13 @@ def check_C18(ctx):
         hl.append('A i s ' + ' '.join(seq) + ' s f')
         hl.append('A i ' + ' '.join(seq) + ' f i s f')
     hl = [h for h in hl if legal_history(h)]
+    # every mode through each back end's own copy of eav_setup / eav_is_email, on addresses the four modes judge differently
+    # (controls, folding, white space and escapes in quoted strings, RFC 20 characters, non-ASCII local parts and domains, literals)
+    disc = [b'"a\x01b"@c.org', b'"a\r\n b"@c.org', b'"a\rb"@c.org', b'"a b"@c.org', b'"a\tb"@c.org', b'" a"@c.org', b'"\\\x7f"@c.org', b'"\\\x01"@c.org', b'a\x7fb@c.org',
+            b'"a\nb"@c.org', b'a#b@c.org', b'a.b@c.org', b'a..b@c.org', '\u00e9@b.com'.encode(), 'a@\u043f\u043e\u0447\u0442\u0430.\u0440\u0444'.encode(), b'a@[1.2.3.4]', b'a@[IPv6:::1]',
+            b'a@b.com', b'a@test', b'a@b.adac', b'a@b', b'"a"."b"@c.org', b'"a""b"@c.org', b'a@b_c.org']
+    orc.update(vlib.idn_oracle(gens.domains_of(disc)))
+    hl += facade_lines(disc, orc) + ['A i r%d s %s r%d s %s x f' % (m1, gens.enc_e(a, orc), m2, gens.enc_e(a, orc)) for a in disc[:10] for m1 in range(4) for m2 in range(4) if m1 != m2]
     # the TLD policy of each back end's own copy of the facade: every class code x masks (each single bit, each single bit missing, none, all) x modes
     masks = [0, 2047] + [1 << b for b in range(11)] + [2047 ^ (1 << b) for b in range(11)] + [760, 6, 10, 24]
     jl = ['J %d %d %d %d' % (m, mk, t, rc) for m in range(4) for mk in masks for t in (0, 1) for rc in list(range(-3, 10))]
